@@ -415,6 +415,7 @@ def evalArithL (expr : List Char) (env : String → Option Int) : Except ExprErr
     match unicodeEscape (expr.drop 1).dropLast with
     | .ok [ch] => .ok (Int.ofNat ch.toNat)
     | .ok _ => .error .error
+    | .error (.internal _) => .error .error      -- UnicodeDecodeError → AssemblerError (fix 0f…: caught with TypeError)
     | .error e => .error e
   else if expr.length > maxExprLen then .error (.unsupported "long expression")
   else evalPy expr env
